@@ -176,16 +176,24 @@ class PathCtx:
             return val
 
     def nondet_choice(self, tag, n):
-        """an environment choice in range(n) that is not a harness input (hash order, sort ties)"""
+        """an environment choice in range(n) that is not a harness input (hash order, sort ties, schedule).
+        It is unconstrained by the path condition, so every value is feasible: enumerated, no solver call."""
         if n <= 1:
             return 0
         if self.concrete is not None:
             c = 0
+        elif self.pos < len(self.prefix):
+            e = self._next('n')
+            c = e[1]
+            self.trace.append(e)
+            self.nsym_decisions += 1
         else:
-            v = sx.Int('%s?%d' % (tag, self.fresh))
-            self.fresh += 1
-            self.add(sx.And(v >= 0, v < n))
-            c = self.concretize(v)
+            for alt in range(n - 1, 0, -1):
+                self.alts.append(self.trace + [('n', alt)])
+            c = 0
+            self.trace.append(('n', 0))
+            self.nsym_decisions += 1
+            self.note_fork()
         self.nondet.append((tag, c, n))
         return c
 
